@@ -94,7 +94,7 @@ pub struct BitsV {
     pub c: u8,
 }
 
-#[derive(Encode)]
+#[derive(Encode, Decode)]
 pub struct BitsL {
     pub a: ssz::BitVector<typenum::U9>,
     pub b: ssz::BitList<typenum::U16>,
